@@ -304,6 +304,118 @@ def _stats_point(pt):
     return core.result(viol, obs=[coeff, len(viol) == 0], sample=dict(numpy_seed=s, coeff=coeff, n=n))
 
 
+# ---------------------------------------------------------------- long signals, object reuse
+
+LONG_N = [255, 256, 257, 1023, 1024, 1025, 4095, 4096, 4097, 16383, 16384, 16385, 32768, 32769,
+          65535, 65536, 65537, 65538, 131071, 131072, 131073]
+
+
+def _pre_long_point(pt, seed):
+    """lengths around powers of two (block / buffer boundaries of any chunked implementation)"""
+    from pydrobert.speech import pre
+
+    dtype, in_place, N = pt
+    vals = _values(seed, N, dtype)
+    x64 = vals.astype(np.float64)
+    want64 = x64.copy()
+    want64[1:] = x64[1:] - 0.97 * x64[:-1]      # y[i] = x[i] - c*x[i-1] from the ORIGINAL samples
+    want = _cast(want64, dtype)
+    x = np.array(vals, copy=True)
+    before = x.copy()
+    case = dict(kind="preemphasize_long", N=N, dtype=dtype, in_place=in_place)
+    tags = dict(proc="Preemphasize", dtype_kind=np.dtype(dtype).kind, in_place=in_place, long=True)
+    r = computers.call(lambda: pre.Preemphasize(0.97).apply(x, in_place=in_place))
+    viol = []
+    if r[0] != "ok":
+        viol.append(core.violation(dict(tags, what="exception", exc=r[1]), "%s: %s" % r[1:], case))
+    elif r[1].dtype != np.dtype(dtype) or r[1].shape != (N,):
+        viol.append(core.violation(dict(tags, what="dtype_or_shape"),
+                                   "returned %r %r" % (r[1].dtype, r[1].shape), case))
+    else:
+        bad = np.flatnonzero(~(r[1] == want))
+        if len(bad):
+            viol.append(core.violation(
+                dict(tags, what="values", first_sample=bool(bad[0] == 0), zero_coeff=False),
+                "N=%d %s: %d samples differ from the float64 recurrence, first at index %d (got %r, "
+                "expected %r)" % (N, dtype, len(bad), int(bad[0]), r[1][bad[0]].item(),
+                                  want[bad[0]].item()), case))
+        if not in_place and not np.array_equal(x, before):
+            viol.append(core.violation(dict(tags, what="input_modified", layout="contiguous"),
+                                       "input modified", case))
+    return core.result(viol, obs=[dtype, N > 65536], sample=case)
+
+
+def _pre_long_replay(case, seed):
+    return _pre_long_point((case["dtype"], case["in_place"], case["N"]), seed)
+
+
+DH_OPS = [["seed", 0], ["seed", 1], ["apply", 1], ["apply", 2], ["apply", 3]]
+
+
+def _dither_history(ops, persistent, coeff=1.0):
+    from pydrobert.speech import pre
+
+    d = pre.Dither(coeff)
+    outs = []
+    for op in ops:
+        if op[0] == "seed":
+            np.random.seed(op[1])
+            if not persistent:
+                d = pre.Dither(coeff)      # reference: a fresh object after every (re)seed
+        else:
+            outs.append(np.array(d.apply(np.zeros(op[1])), copy=True))
+    return outs
+
+
+def _dither_history_point(prefix):
+    """every history of depth <= DEPTH over {seed(0), seed(1), apply(1|2|3 samples)} that starts with
+    this prefix, on ONE Dither object: after numpy.random.seed(s) the noise must be what a fresh
+    object produces after the same seed and the same calls (reproducible under numpy.random.seed)"""
+    depth = 6 - len(prefix)
+    viol = []
+    evals = nt = 0
+    for tail in itertools.chain.from_iterable(itertools.product(DH_OPS, repeat=k)
+                                              for k in range(0, depth + 1)):
+        ops = [list(o) for o in prefix] + [list(o) for o in tail]
+        napply = sum(1 for o in ops if o[0] == "apply")
+        if ops[-1][0] != "apply":
+            continue
+        evals += 1
+        r = computers.call(_dither_history, ops, True)
+        ref = _dither_history(ops, False)
+        reseeded = any(o[0] == "seed" for o in ops[2:])
+        nt += int(reseeded and napply >= 2)
+        case = dict(kind="dither_history", ops=ops)
+        if r[0] != "ok":
+            viol.append(core.violation(dict(proc="Dither", what="exception", exc=r[1], history=True),
+                                       "%r raised %s: %s" % (ops, r[1], r[2]), case))
+        elif not all(_same(a, b) for a, b in zip(r[1], ref)):
+            k = [i for i, (a, b) in enumerate(zip(r[1], ref)) if not _same(a, b)][0]
+            viol.append(core.violation(
+                dict(proc="Dither", what="not_reproducible", history=True, object_reused=True),
+                "history %r on one Dither object: apply #%d returned %r, a fresh object after the same "
+                "numpy.random.seed and calls returns %r" % (ops, k, r[1][k].tolist(), ref[k].tolist()),
+                case))
+        if len(viol) >= 5:
+            break
+    return core.result(viol, evals=evals, nontrivial_count=nt, obs=[len(viol) == 0, prefix[-1]],
+                       sample=dict(prefix=prefix, depth=6))
+
+
+def _dither_history_replay(case):
+    ops = case["ops"]
+    r = computers.call(_dither_history, ops, True)
+    ref = _dither_history(ops, False)
+    if r[0] != "ok":
+        return core.result([core.violation(dict(proc="Dither", what="exception", exc=r[1], history=True),
+                                           str(r), case)])
+    if not all(_same(a, b) for a, b in zip(r[1], ref)):
+        return core.result([core.violation(
+            dict(proc="Dither", what="not_reproducible", history=True, object_reused=True),
+            "%r vs %r" % ([a.tolist() for a in r[1]], [b.tolist() for b in ref]), case)])
+    return core.result([])
+
+
 # ---------------------------------------------------------------- sub-checks
 
 
@@ -313,7 +425,24 @@ def subchecks(tier, seed):
     dith_pts = [(s, d) for s in range(nseeds) for d in DTYPES]
     indep = [(s, c) for s in range(nseeds) for c in (0.0, 0.5, 1.0, 3.0)]
     stats = [(s, c) for s in range(8 if tier == "quick" else 32) for c in (0.5, 1.0, 3.0)]
+    long_n = LONG_N if tier == "quick" else LONG_N + [262143, 262144, 262145, 1048575, 1048576, 1048577]
+    long_pts = [(d, ip, n) for d in ("float64", "float32", "int16") for ip in (False, True) for n in long_n]
+    hist_pts = [[["seed", s], op] for s in (0, 1) for op in DH_OPS]
     return [
+        core.SubCheck(
+            "preemphasize_long", long_pts, lambda p: _pre_long_point(p, seed),
+            "Preemphasize(0.97) on signals whose lengths straddle powers of two up to 2^17+1 (thorough "
+            "2^20+1) x {float64,float32,int16} x in_place: every sample equals the float64 recurrence on "
+            "the ORIGINAL samples cast back; non-trivial = always (N >= 255)",
+            axes=dict(N=long_n, dtype=["float64", "float32", "int16"], in_place=[False, True]),
+            replay=lambda c: _pre_long_replay(c, seed)),
+        core.SubCheck(
+            "dither_history", hist_pts, _dither_history_point,
+            "ALL histories of depth <= 6 over {numpy.random.seed(0), seed(1), apply(1|2|3 samples)} on ONE "
+            "Dither object (grouped by their first two operations): every apply must return what a fresh "
+            "object returns after the same seeds and calls; non-trivial = the object is re-seeded after "
+            "having drawn noise",
+            axes=dict(ops=DH_OPS, depth=6), replay=_dither_history_replay, kind="explore"),
         core.SubCheck(
             "preemphasize", pre_pts, lambda p: _pre_point(p, seed),
             "Preemphasize(coeff).apply over dtype x coeff (points) x N 0..6 x in_place x layout "
